@@ -8,11 +8,14 @@ import itertools
 import json
 import multiprocessing
 import os
+import time
 import traceback
 
 from .report import Violation
 
 NWORKERS = int(os.environ.get('VERIF_WORKERS', '0')) or min(16, os.cpu_count() or 1)
+CASE_TIMEOUT = int(os.environ.get('VERIF_CASE_TIMEOUT', '30'))     # seconds; ordinary cases take milliseconds
+STOP_AFTER_VIOLATIONS = 60      # per worker: a tree this broken needs no further exploration
 _ctx = multiprocessing.get_context('fork')
 MAX_VIOLS_PER_WORKER = 40
 
@@ -24,6 +27,26 @@ def h64(obj):
 
 class HarnessError(Exception):
     pass
+
+
+class CaseTimeout(BaseException):
+    pass
+
+
+def _on_alarm(signum, frame):
+    raise CaseTimeout()
+
+
+def timed(fn, arg, seconds=None):
+    """Run fn(arg) under an alarm.  A case that does not come back is reported, it does not hang the check."""
+    import signal
+    old = signal.signal(signal.SIGALRM, _on_alarm)
+    signal.alarm(seconds or CASE_TIMEOUT)
+    try:
+        return fn(arg)
+    finally:
+        signal.alarm(0)
+        signal.signal(signal.SIGALRM, old)
 
 
 class Result:
@@ -39,6 +62,7 @@ class Result:
         self.bound = None
         self.exhaustive = True
         self.extra = {}
+        self.rerun = None
 
 
 class Eval:
@@ -83,8 +107,6 @@ class _VBag:
 
 def _fork_map(fn, nshards):
     """Run fn(rank) in nshards forked processes; return their results in rank order."""
-    if nshards == 1:
-        return [fn(0)]
     procs = []
     for r in range(nshards):
         parent, child = _ctx.Pipe(duplex=False)
@@ -129,13 +151,20 @@ def prod(gen_factory, eval_fn, workers=None, nsamples=4, seed=0, bound=None, cap
         out = {'evaluations': 0, 'transitions': 0, 'validated': 0, 'capped': False,
                'outcomes': set(), 'nontrivial': set(), 'samples': []}
         bag = _VBag()
+        timeouts = 0
+        t_start = time.time()
         for idx, case in enumerate(gen_factory()):
             if cap is not None and idx >= cap:
                 out['capped'] = True
                 break
             if idx % n != rank:
                 continue
-            ev = eval_fn(case)
+            try:
+                ev = timed(eval_fn, case)
+            except CaseTimeout:
+                ev = Eval([Violation('timeout', case, {'seconds': CASE_TIMEOUT, 'note': 'the case did not come back; '
+                                     'cases of this part normally take milliseconds'})])
+                timeouts += 1
             out['evaluations'] += 1
             out['transitions'] += ev.transitions
             out['validated'] += ev.validated
@@ -147,6 +176,9 @@ def prod(gen_factory, eval_fn, workers=None, nsamples=4, seed=0, bound=None, cap
                 out['samples'].append((idx, case))
             for v in ev.viols:
                 bag.add(v)
+            if timeouts >= 2 or bag.total >= STOP_AFTER_VIOLATIONS or (bag.total and time.time() - t_start > 45):
+                out['capped'] = True       # stop early: reported as not exhaustive
+                break
         out['viols'] = bag.items
         out['nviol'] = bag.total
         return out
@@ -171,6 +203,7 @@ def prod(gen_factory, eval_fn, workers=None, nsamples=4, seed=0, bound=None, cap
     res.nontrivial = len(nontriv)
     res.samples = [c for _, c in sorted(samples, key=lambda x: x[0])][:nsamples]
     res.bound = bound
+    res.rerun = lambda: prod(gen_factory, eval_fn, workers=workers, nsamples=nsamples, seed=seed, bound=bound, cap=cap)
     return res
 
 
@@ -199,7 +232,12 @@ def bfs(expand, depth, workers=None, seed=0, merge=True, bound=None, max_states=
             out = []
             for i in range(rank, len(fr), nshards):
                 hist = fr[i]
-                for (ev, key, e) in expand(hist):
+                try:
+                    children = timed(expand, hist, CASE_TIMEOUT * 4)
+                except CaseTimeout:
+                    children = [(['<expansion>'], None, Eval([Violation('timeout', {'history': [list(x) for x in hist]},
+                                                                       {'seconds': CASE_TIMEOUT * 4})]))]
+                for (ev, key, e) in children:
                     out.append((i, ev, key, e.viols and [(v.kind, v.case, v.detail) for v in e.viols],
                                 h64(e.outcome) if e.outcome is not None else None,
                                 e.nontrivial, e.transitions, e.validated))
@@ -242,6 +280,7 @@ def bfs(expand, depth, workers=None, seed=0, merge=True, bound=None, max_states=
         res.violations.append(Violation(k, c, dd))
     res.extra['violations_total'] = bag.total
     res.bound = dict(bound or {}, depth_completed=completed)
+    res.rerun = lambda: bfs(expand, depth, workers=workers, seed=seed, merge=merge, bound=bound, max_states=max_states)
     return res
 
 
